@@ -22,6 +22,7 @@ THEOREMS = [
     'OpenHTF.Kill.c12_pending_exception_preempts_body',
     'OpenHTF.Kill.c12_no_false_timeout',
     'OpenHTF.Kill.c12_timeout_only_if_still_running_at_deadline',
+    'OpenHTF.Kill.c12_still_running_at_deadline_times_out',
     'OpenHTF.Kill.c12_bounded_delay',
     'OpenHTF.Kill.c12_hung_body_times_out',
     'OpenHTF.Kill.c12_default_timeout',
